@@ -91,6 +91,14 @@ def o_headers(case):
         for low in (0, 0xF):
             check_one(bytes([n >> 4, (n & 0xF) << 4 | low]), None)
             evals += 1
+        if n % 16 == case["vers"][0] % 16 or n in (0, 1, 4095) or 1070 <= n <= 1229 and n % 10 in (0, 8, 9):
+            # the longest payloads a frame can carry (1017 .. 1023 bytes) for undefined numbers: still a stub
+            for ln in (1017, 1018, 1020, 1022, 1023):
+                p = bytes([n >> 4, (n & 0xF) << 4]) + tail_for(n, ln, 7, 64) * 16
+                if model.definition(str(n)) is None:
+                    check_one(p[:ln], None)
+                    evals += 1
+            cls.add("longest-payloads")
     if n >> 4 == 0xD3:
         # payloads that look like a transport frame themselves (first byte 0xD3, then a length that matches): the
         # identity is still the number in the first 12 bits
